@@ -161,6 +161,8 @@ class SyncObj(object):
         self.__raftLeader = None
         self.__raftElectionDeadline = monotonicTime() + self.__generateRaftTimeout()
         self.__raftLog = createJournal(self.__conf.journalFile)
+        # With a journal file the term and the vote survive a restart
+        self.__raftCurrentTerm, self.__votedForNodeId = self.__raftLog.getRaftTermAndVote()
         if len(self.__raftLog) == 0:
             self.__raftLog.add(_bchr(_COMMAND_TYPE.NO_OP), 1, self.__raftCurrentTerm)
         self.__raftCommitIndex = self.__raftLog.getRaftCommitIndex()
@@ -583,6 +585,7 @@ class SyncObj(object):
                 self.__setState(_RAFT_STATE.CANDIDATE)
                 self.__raftCurrentTerm += 1
                 self.__votedForNodeId = self.__selfNode.id
+                self.__raftLog.setRaftTermAndVote(self.__raftCurrentTerm, self.__votedForNodeId)
                 self.__votesCount = 1
                 for node in self.__otherNodes:
                     self.__transport.send(node, {
@@ -858,6 +861,7 @@ class SyncObj(object):
             if message['term'] > self.__raftCurrentTerm:
                 self.__raftCurrentTerm = message['term']
                 self.__votedForNodeId = None
+                self.__raftLog.setRaftTermAndVote(self.__raftCurrentTerm, self.__votedForNodeId)
                 self.__setState(_RAFT_STATE.FOLLOWER)
                 self.__raftLeader = None
 
@@ -874,6 +878,7 @@ class SyncObj(object):
                         return
 
                     self.__votedForNodeId = node.id
+                    self.__raftLog.setRaftTermAndVote(self.__raftCurrentTerm, self.__votedForNodeId)
 
                     self.__raftElectionDeadline = monotonicTime() + self.__generateRaftTimeout()
                     self.__transport.send(node, {
@@ -889,6 +894,7 @@ class SyncObj(object):
             if message['term'] > self.__raftCurrentTerm:
                 self.__raftCurrentTerm = message['term']
                 self.__votedForNodeId = None
+                self.__raftLog.setRaftTermAndVote(self.__raftCurrentTerm, self.__votedForNodeId)
             self.__setState(_RAFT_STATE.FOLLOWER)
             newEntries = message.get('entries', [])
             serialized = message.get('serialized', None)
